@@ -23,14 +23,16 @@ func verifRefSha(name string) string {
 func verifBranch(name string) string {
 	// a few fixed names plus an arbitrary one, so that equal and different
 	// names on the two sides are both inside the explored space
-	switch verifChoose(name+".kind", 3) {
+	switch verifChoose(name+".kind", 4) {
 	case 0:
 		return "main"
 	case 1:
 		return "topic"
+	case 2:
+		return "Topic" // branch names are case sensitive
 	}
 	s := verifNondetString(name)
-	verifAssumeAlphabet(s, "az09//--")
+	verifAssumeAlphabet(s, "azAZ09//--")
 	verifAssume(len(s) >= 1 && len(s) <= 12)
 	return s
 }
